@@ -292,6 +292,33 @@ def concretise(job, oname, model):
                 a, b = o[(v, True)], o[(v, False)]
                 bad |= not (a == b or (a == ('ret', 'U9') and b == ('ret', 'U11')))
             return rep, bad
+        if kind == 'disp':
+            # the dispatcher must hand the caller's own arguments and options to the rule of the category: search a boundary grid
+            # for a call on which it answers differently from that rule called directly with the same options
+            m = _mod()
+            rules = {'TF': m.rule107_agegroups_trackandfield, 'ROAD': m.rule507_agegroups_crosscountry, 'XC': m.rule507_agegroups_crosscountry}
+            def _c(f, *a, **k):
+                try:
+                    return ('ret', f(*a, **k))
+                except Exception as e:
+                    return ('exc', type(e).__name__)
+            for match in ((2015, 1, 3), (2015, 6, 1), (2015, 9, 30), (2016, 2, 29)):
+                md = datetime.date(*match)
+                for age in (6, 7, 8, 9, 10, 11, 12, 14, 16, 19, 20, 21, 34, 35, 36, 44, 45, 70):
+                    for dm, dd in ((1, 1), (8, 31), (9, 1), (12, 31), (match[1], min(match[2], 28))):
+                        born = (match[0] - age, dm, dd)
+                        b = datetime.date(*born)
+                        for cat, rule in rules.items():
+                            for v in (True, False):
+                                for u in (True, False):
+                                    got = _c(m.calc_uka_age_group, b, md, cat, vets=v, underage=u)
+                                    want = _c(rule, b, md, vets=v, underage=u)
+                                    if got != want:
+                                        rep.update(call='calc_uka_age_group(%r, %r, %r, vets=%r, underage=%r)' % (born, match, cat, v, u), observed=got,
+                                                   required='%s, the answer of %s called with the same options' % (want, rule.__name__))
+                                        return rep, True
+            rep.update(call='calc_uka_age_group on the boundary grid', observed='agrees with the rule functions on the grid')
+            return rep, False
         if kind == 'prior':
             _, match, _ = (None, tuple(int(model['match' + s]) for s in ('_y', '_m', '_d')), None)
             try:
